@@ -261,7 +261,7 @@ func (p *hProfile) genUpdate(t *rapid.T, view *hView, ns string) (bson.D, bson.A
 	gen.WithHint(gen.HintOf(view.allDocs(ns)...), func() {
 		if len(p.tinyVals) > 0 && rapid.IntRange(0, 9).Draw(t, "tinyupd") < 6 {
 			// move values around among the small pool (collisions on indexed fields)
-			op := rapid.SampledFrom([]string{"$set", "$set", "$set", "$unset", "$inc", "$push", "$addToSet", "$pull", "$pushEach"}).Draw(t, "top")
+			op := rapid.SampledFrom([]string{"$set", "$set", "$set", "$unset", "$inc", "$push", "$addToSet", "$pull", "$pushEach", "$addToSetEach", "$conflict"}).Draw(t, "top")
 			k := rapid.SampledFrom([]string{"a", "b", "c"}).Draw(t, "tk")
 			if (op == "$set" || op == "$inc" || op == "$unset") && rapid.IntRange(0, 999).Draw(t, "deepk")%6 == 3 {
 				// through an array into its elements (documents inside arrays)
@@ -269,6 +269,20 @@ func (p *hProfile) genUpdate(t *rapid.T, view *hView, ns string) (bson.D, bson.A
 			}
 			var v interface{} = rapid.SampledFrom(p.tinyVals).Draw(t, "tval")
 			switch op {
+			case "$conflict":
+				// a path and its ancestor, both written with fresh values:
+				// rejected as a whole whenever the update is applied at all
+				child := k + "." + rapid.SampledFrom([]string{"b", "x"}).Draw(t, "cfc")
+				fields := bson.D{{Key: child, Value: "fresh-c"}, {Key: k, Value: "fresh-p"}}
+				if rapid.Bool().Draw(t, "cford") {
+					fields = bson.D{fields[1], fields[0]}
+				}
+				upd = bson.D{{Key: "$set", Value: fields}}
+				return
+			case "$addToSetEach":
+				op = "$addToSet"
+				a, b := rapid.SampledFrom(p.tinyVals).Draw(t, "as1"), rapid.SampledFrom(p.tinyVals).Draw(t, "as2")
+				v = bson.D{{Key: "$each", Value: rapid.SampledFrom([]bson.A{{a, b, a}, {a, a}, {b, a, b, a}, {a}}).Draw(t, "asl")}}
 			case "$pushEach":
 				// $push with modifiers on (mostly) existing arrays: windows
 				// that cut, positions inside, sorts
